@@ -237,10 +237,13 @@ def _scenario_child(scn, forced=None, est_steps=20000):
         gc.collect()
         open_conns = [] if failure else [c._database for c in SIM.live_open_connections()]
         idg, sdg = s.interleaving_digest()
+        import os as _os
+        shared_bn = {"%s:%d" % (_os.path.basename(f), ln) for f, lines in s.shared.items() for ln in lines}
+        sw_shared = sum(1 for sw in s.switches if sw[3] in shared_bn or str(sw[3]).startswith("lock:"))
         return {"results": results, "failure": failure, "hazards": list(shim.HAZARDS)[:5], "open_conns": open_conns,
                 "schedule": s.schedule(), "switch_where": [w for (_s, _f, _t, w, _o) in s.switches][:200], "steps": s.steps,
                 "thread_steps": {n: t["steps"] for n, t in s.threads.items()},
-                "shared_events": s.shared_events, "interleaving": idg, "shared_digest": sdg,
+                "shared_events": s.shared_events, "switches_at_shared_state": sw_shared, "interleaving": idg, "shared_digest": sdg,
                 "lock_acquisitions": sum(l.acquisitions for l in sims), "lock_contended": sum(l.contended for l in sims),
                 "lock_kinds": sorted("%s:%s" % (l.name, "RLock" if l.reentrant else "Lock") for l in sims),
                 "seam_digest": SIM.digest()}
@@ -316,6 +319,7 @@ def task_scenarios(task):
         rec = {"seed": seed, "steps": child["steps"], "switches": len(child["schedule"]), "interleaving": child["interleaving"],
                "shared_digest": child["shared_digest"], "strategy": scn["strategy"]["kind"], "lock_contended": child["lock_contended"],
                "lock_acquisitions": child["lock_acquisitions"], "shared_events": child["shared_events"],
+               "sw_shared": child["switches_at_shared_state"],
                "n_threads": len(scn["threads"]), "n_calls": sum(len(c) for c in scn["threads"]),
                "kinds": sorted({_kind(x["op"]) for cl in scn["threads"] for x in cl}), "viols": []}
         if viols:
@@ -423,7 +427,7 @@ def run(ctx):
             by_strategy[r["strategy"]] = by_strategy.get(r["strategy"], 0) + 1
             for k in r["kinds"]:
                 kinds[k] = kinds.get(k, 0) + 1
-            if r["switches"] >= 2:
+            if r["switches"] >= 2 and r["sw_shared"] >= 1:
                 inter.add((r["seed"], r["interleaving"], r["shared_digest"]))
             if "sample" in r and len(samples) < 3:
                 samples.append(r["sample"])
@@ -445,7 +449,7 @@ def run(ctx):
         "evaluations": n_eval,
         "distinct_nontrivial": len(inter),
         "rule": "one evaluation = one scenario of 2-3 client threads x 1-3 API calls executed under the seeded baton scheduler in a pristine forked process. "
-                "distinct_nontrivial = distinct (scenario, interleaving digest, digest of the (thread, shared-state line) subsequence) with >= 2 thread switches.",
+                "distinct_nontrivial = distinct (scenario, interleaving digest, digest of the (thread, shared-state line) subsequence) with >= 2 thread switches of which >= 1 happened at a line that touches process-global state (or at a simulated lock).",
         "samples": samples or [{"note": "none"}],
         "simulated_steps": steps, "thread_switches": switches, "simulated_lock_contentions": contended,
         "shared_state_line_events": shared, "scenarios_by_strategy": by_strategy, "scenarios_by_call_kind": kinds,
